@@ -501,7 +501,7 @@ def gen_lmtd_pair(rng):
     if k < 0.15:
         return a, a
     if k < 0.30:
-        return a, a * (1 + rng.choice([1, -1]) * 2.0 ** -rng.randint(9, 19))
+        return a, a * (1 + rng.choice([1, -1]) * 2.0 ** -rng.randint(9, 46))     # nearly equal, down to a few ulps
     if k < 0.40:
         b = rng.choice([0.0, -0.125, -3.0, 2.0 ** -24, -2.0 ** -24])
         return (a, b) if rng.random() < 0.5 else (b, a)
